@@ -281,7 +281,11 @@ def _run_case(case):
             with contextlib.redirect_stdout(io.StringIO()), contextlib.redirect_stderr(io.StringIO()):
                 try:
                     if pre:
-                        drf_command.main(pre)
+                        try:
+                            drf_command.main(pre)
+                        except (Exception, SystemExit) as e:
+                            res.fail("command-exception:%s" % type(e).__name__, "argv %r: %s" % (pre[:1] + pre[3:], e))
+                            return res
                     try:
                         drf_command.main(argv)
                     except (Exception, SystemExit) as e:
